@@ -381,6 +381,7 @@ var encoderPool sync.Pool
 func ReleaseEncoder(enc *VP8Encoder) {
 	if enc != nil {
 		encoderPool.Put(enc)
+		verifhook.PoolPut("lossy.VP8Encoder")
 	}
 }
 
